@@ -669,6 +669,25 @@ class Gen:
         i = self.rng.randrange(nl, len(frame))
         return (f"filter {frame[i].ref} == null", f"( filter ( isnull ( col {i} ) ) )", frame)
 
+    def tr_filter_window(self, frame, sname):
+        """a window function over the whole relation used ONLY inside a filter (it never becomes a column)"""
+        rng = self.rng
+        n = len(frame)
+        ints = [(i, c) for i, c in enumerate(frame) if c.ty == INT]
+        if ints and rng.random() < 0.4:
+            i, c = rng.choice(ints)
+            fn = rng.choice(["min", "max"])
+            k = rng.choice([0, 1, 2, 3])
+            op, sym = rng.choice([("le", "<="), ("ge", ">="), ("lt", "<"), ("gt", ">")])
+            return (f"filter ({fn} {c.ref}) {sym} {k}",
+                    f"( window (  ) ( ( (  ) (  ) - {fn} ( col {i} ) ) ) ) ( filter ( {op} ( col {n} ) ( lit {k} ) ) ) ( select ( " +
+                    " ".join(f"( col {j} )" for j in range(n)) + " ) )", [c_.copy() for c_ in frame])
+        k = rng.randint(1, 6)
+        op, sym = rng.choice([("le", "<="), ("ge", ">="), ("lt", "<"), ("gt", ">")])
+        return (f"filter (count this) {sym} {k}",
+                f"( window (  ) ( ( (  ) (  ) - count ( lit 1 ) ) ) ) ( filter ( {op} ( col {n} ) ( lit {k} ) ) ) ( select ( " +
+                " ".join(f"( col {j} )" for j in range(n)) + " ) )", [c_.copy() for c_ in frame])
+
     # -- window functions (C04)
     def tr_window(self, frame, sname):
         rng = self.rng
